@@ -280,3 +280,63 @@ Proof.
   - rewrite Ew. eauto.
 Qed.
 End Term.
+
+(* ---------- nfa_bounded reflects the hypotheses of nfa_to_dfa_total ---------- *)
+Lemma set_bounded_b_spec n S : set_bounded_b n S = true -> forall x, s_mem x S = true -> (x < n)%nat.
+Proof.
+  unfold set_bounded_b, s_mem. intros H x Hx. apply N.ltb_lt in H.
+  destruct (N.eq_dec S 0) as [->|Hne]; [rewrite N.bits_0 in Hx; discriminate|].
+  apply N.log2_lt_pow2 in H; [|lia].
+  destruct (N.le_gt_cases (N.of_nat x) (N.log2 S)) as [Hle|Hgt]; [lia|].
+  rewrite (N.bits_above_log2 S (N.of_nat x) Hgt) in Hx. discriminate.
+Qed.
+
+Lemma nfa_bounded_spec m : nfa_bounded m = true ->
+  (forall s, bounded m (n_eps (n_get m s))) /\ (forall s e, bounded m (ntrans m s e)) /\ (0 < length m)%nat.
+Proof.
+  unfold nfa_bounded. intros H. apply andb_true_iff in H. destruct H as [Hp H].
+  apply Nat.ltb_lt in Hp. rewrite forallb_forall in H.
+  assert (Hs : forall s, let st := n_get m s in
+            (forall S, In S (tm_sets (n_tm st)) -> bounded m S) /\ bounded m (n_eps st)
+            /\ bounded m (n_bol st) /\ bounded m (n_eol st) /\ bounded m (n_eof st)).
+  { intros s. cbn zeta. unfold n_get. destruct (Nat.lt_ge_cases s (length m)) as [Hlt|Hge].
+    - specialize (H _ (nth_In m n_new Hlt)).
+      repeat (apply andb_true_iff in H; destruct H as [H ?]).
+      rename H into Hts. rewrite forallb_forall in Hts.
+      split; [intros S HS y Hy; eapply set_bounded_b_spec; [apply Hts; exact HS|exact Hy]|].
+      split; [intros y Hy; eapply set_bounded_b_spec; eauto|].
+      split; [intros y Hy; eapply set_bounded_b_spec; eauto|].
+      split; intros y Hy; eapply set_bounded_b_spec; eauto.
+    - rewrite nth_overflow by exact Hge. cbn [n_new n_tm n_eps n_bol n_eol n_eof tm_new tm_sets].
+      assert (He0 : bounded m s_empty) by (intros y Hy; rewrite s_mem_empty in Hy; discriminate).
+      split; [intros S [<-|[]]; exact He0|]. auto. }
+  split; [intros s; exact (proj1 (proj2 (Hs s)))|]. split; [|exact Hp].
+  intros s e. destruct (Hs s) as (Ht & _ & Hb & Hl & Hf). destruct e as [c| | | |]; cbn [ntrans]; auto.
+  - unfold tm_get. intros x Hx.
+    destruct (nth_in_or_default (count_le (tm_codes (n_tm (n_get m s))) c - 1) (tm_sets (n_tm (n_get m s))) s_empty) as [Hin|Hd].
+    + exact (Ht _ Hin x Hx).
+    + rewrite Hd, s_mem_empty in Hx. discriminate.
+  - intros x Hx. rewrite s_mem_empty in Hx. discriminate.
+Qed.
+
+(* with the executable checks: nfa_to_dfa returns a machine for fuel above 2^(number of states) *)
+Theorem nfa_to_dfa_total_b m fuel : nfa_ok m = true -> nfa_bounded m = true ->
+  (N.to_nat (2 ^ N.of_nat (length m)) < fuel)%nat -> exists D, nfa_to_dfa fuel m = Some D.
+Proof.
+  intros Hok Hb Hf. destruct (nfa_bounded_spec m Hb) as (He & Ht & Hp).
+  assert (Hw : (forall s, tm_inv (n_tm (n_get m s))) /\ (forall s, tm_else_ok (n_tm (n_get m s)) = true)).
+  { unfold nfa_ok in Hok. rewrite forallb_forall in Hok.
+    assert (Hs : forall s, tm_inv_b (n_tm (n_get m s)) && tm_else_ok (n_tm (n_get m s)) = true).
+    { intros s. unfold n_get. destruct (Nat.lt_ge_cases s (length m)) as [Hlt|Hge].
+      - apply Hok. apply nth_In. exact Hlt.
+      - rewrite nth_overflow by exact Hge. reflexivity. }
+    split; intros s; specialize (Hs s); apply andb_true_iff in Hs; destruct Hs as [H1 H2]; [|exact H2].
+    unfold tm_inv_b in H1. repeat (apply andb_true_iff in H1; destruct H1 as [H1 ?]).
+    constructor; [apply Nat.eqb_eq; assumption|apply Nat.leb_le; assumption|lia|lia|].
+    clear - H. induction (tm_codes (n_tm (n_get m s))) as [|a t IH]; [exact I|].
+    destruct t as [|b t']; [exact I|].
+    change (sorted_b (a :: b :: t')) with ((a <? b) && sorted_b (b :: t')) in H.
+    apply andb_true_iff in H. destruct H as [H1 H2].
+    change (a < b /\ sorted (b :: t')). split; [lia|auto]. }
+  destruct Hw as (Hwf & Helse). exact (nfa_to_dfa_total m Hwf Helse He Ht Hp fuel Hf).
+Qed.
